@@ -30,6 +30,25 @@ theorem pixelscale_refusal (a b : Option (Int × Int)) :
         rw [Bool.eq_false_iff]; intro hh; simp only [Bool.and_eq_true, decide_eq_true_eq] at hh; exact h hh
       simp [this, h, Except.map]
 
+/-- **the refusal does not depend on the unit of length**: re-expressing both pixel scales through any injective map of the
+scale values (e.g. metres → nanometres) refuses exactly the same pairs and returns the re-expressed result. In particular
+no pair of *different* scales is ever accepted because it is small or nearly equal — what a tolerance-based comparison
+(`np.allclose`, absolute 1e-8) would do at nanometre scales. -/
+theorem pixelscale_refusal_unit_free (f : Int → Int) (hf : Function.Injective f) (a b : Option (Int × Int)) :
+    mulPixelscale (a.map fun p => (f p.1, f p.2)) (b.map fun p => (f p.1, f p.2))
+      = match mulPixelscale a b with
+        | .ok r => .ok (r.map fun p => (f p.1, f p.2))
+        | .error e => .error e := by
+  rw [pixelscale_refusal, pixelscale_refusal]
+  rcases a with _ | ⟨x0, x1⟩ <;> rcases b with _ | ⟨y0, y1⟩ <;> simp only [Option.map_none, Option.map_some]
+  by_cases h : (x0, x1) = (y0, y1)
+  · rw [if_pos h, if_pos (by rw [Prod.mk.injEq] at h ⊢; exact ⟨by rw [h.1], by rw [h.2]⟩)]
+    rfl
+  · rw [if_neg h, if_neg]
+    intro hh
+    rw [Prod.mk.injEq] at hh
+    exact h (by rw [Prod.mk.injEq]; exact ⟨hf hh.1, hf hh.2⟩)
+
 /-! ## Metadata hand-over -/
 section handover
 variable {K R M : Type} [Zero K] [Mul K]
@@ -250,6 +269,25 @@ theorem plane_multiply_exp (wavelength : ℝ) (amp : Attr ℂ) (opd : Attr ℝ) 
               Complex.exp (2 * Real.pi * Complex.I * (((opd.at (r + S0 / 2) (c + S1 / 2) : ℝ) : ℂ) / (wavelength : ℂ)))
          else 0) := by
   rw [plane_multiply_monolithic (planePh wavelength) amp opd S0 S1 g hc hbig data hd r c, planePh_eq_exp]
+
+/-- **scale covariance of the phase factor**: OPD and wavelength enter only through their ratio — multiplying both by any
+`k ≠ 0` (a change of the unit of length) leaves the factor unchanged. So an OPD of 5 nm at λ = 500 nm acts exactly like
+5 mm at λ = 500 mm: no absolute OPD size is "flat". -/
+theorem planePh_scale (k wavelength opd : ℝ) (hk : k ≠ 0) :
+    (planePh (k * wavelength) (k * opd) : ℂ) = planePh wavelength opd := by
+  show Complex.exp (((2 * Real.pi * (k * opd) / (k * wavelength) : ℝ) : ℂ) * Complex.I)
+      = Complex.exp (((2 * Real.pi * opd / wavelength : ℝ) : ℂ) * Complex.I)
+  have : 2 * Real.pi * (k * opd) / (k * wavelength) = 2 * Real.pi * opd / wavelength := by
+    rw [show 2 * Real.pi * (k * opd) = k * (2 * Real.pi * opd) by ring, mul_div_mul_left _ _ hk]
+  rw [this]
+
+/-- hence the phasors of a plane are unchanged when every OPD value and the wavelength are multiplied by `k ≠ 0` -/
+theorem plane_phasors_scale (k wavelength : ℝ) (hk : k ≠ 0) (amp : Attr ℂ) (opd : Attr ℝ) (mask : MaskM) (data : List (Fld ℂ)) :
+    planeMultiply (fun o => (planePh (k * wavelength) (k * o) : ℂ)) ⟨amp, opd, mask⟩ data
+      = planeMultiply (planePh wavelength) ⟨amp, opd, mask⟩ data := by
+  have : (fun o => (planePh (k * wavelength) (k * o) : ℂ)) = planePh wavelength := by
+    funext o; exact planePh_scale k wavelength o hk
+  rw [this]
 
 /-- and the wavefront-level multiplication uses exactly this factor with the wavefront's own wavelength -/
 theorem plane_uses_wavefront_wavelength (p : PlaneM ℂ ℝ) (ppx : Option (Int × Int)) (w w' : Wf ℂ ℝ)
